@@ -35,6 +35,7 @@ contract(
                 "mono": "forall(range(len(chain)), lambda j: cnt[j] >= 0 and cnt[j + 1] <= len(starts))",
                 "fwd": "forall(range(len(chain)), lambda j: implies(" + ok("j") + ", starts[cnt[j]] == chain[j]))",
                 "bwd": "forall(range(len(starts)), lambda j: 0 <= idx[j] < len(chain) and (" + ok("idx[j]") + ") and cnt[idx[j]] == j and starts[j] == chain[idx[j]])",
+                "occ": "forall(range(len(starts)), lambda j: 0 <= starts[j] and starts[j] + len(keyword) <= len(data) and data[starts[j] : starts[j] + len(keyword)] == keyword)",
             },
             variant="(len(data) - start + 1) if start >= 0 else 0",
         )
@@ -48,6 +49,45 @@ contract(
         # ... and result is exactly its sub-sequence of delimited occurrences, in order, each once
         "cnt-def": "implies(len(keyword) > 0, len(cnt) == len(chain) + 1 and cnt[0] == 0 and len(result) == cnt[len(chain)] and forall(range(len(chain)), lambda j: cnt[j + 1] == cnt[j] + (1 if (" + ok("j") + ") else 0)))",
         "complete": "implies(len(keyword) > 0, forall(range(len(chain)), lambda j: implies(" + ok("j") + ", 0 <= cnt[j] < len(result) and result[cnt[j]] == chain[j])))",
+        # every reported start is an occurrence of the keyword, inside the data
+        "occurrence": "forall(range(len(result)), lambda j: 0 <= result[j] and result[j] + len(keyword) <= len(data) and data[result[j] : result[j] + len(keyword)] == keyword)",
+        "delimited": "forall(range(len(result)), lambda j: (result[j] == 0 or not data[result[j] - 1 : result[j]].isalnum()) and "
+        "(result[j] + len(keyword) == len(data) or not data[result[j] + len(keyword) : result[j] + len(keyword) + 1].isalnum()))",
         "sound": "implies(len(keyword) > 0, len(idx) == len(result) and forall(range(len(result)), lambda j: 0 <= idx[j] < len(chain) and (" + ok("idx[j]") + ") and cnt[idx[j]] == j and result[j] == chain[idx[j]]))",
     },
+)
+
+
+# ------------------------------------------------------------------------------------------------ is_mixed_case / find_keywords
+# chr(v).isupper() / .islower() on a byte value v follow Latin-1 (str semantics), unlike bytes.isupper(): the tables are read
+# from CPython at run time by the executor (builtin `latin1_upper` / `latin1_lower`).
+DISC = "((latin1_upper(raw[{i}]) and not latin1_upper(value[{i}])) or (latin1_lower(raw[{i}]) and not latin1_lower(value[{i}])))"
+
+contract(
+    "multidecoder.keyword.is_mixed_case",
+    props=["C17"],
+    loops={1: Loop(index="k", inv={"no-discrepancy-so-far": "forall(range(k), lambda i: not " + DISC.format(i="i") + ")", "not-uniform": "not raw.isupper() and not raw.islower()"})},
+    ensures={
+        # MixedCase exactly when the matched text is neither all upper- nor all lower-case and differs in letter case from the listed keyword
+        "iff": "iff(result, not raw.isupper() and not raw.islower() and exists(range(min(len(raw), len(value))), lambda i: " + DISC.format(i="i") + "))",
+    },
+)
+
+from contracts.decoders import EACH, FRESH  # noqa: E402
+
+contract(
+    "multidecoder.keyword.find_keywords",
+    props=["C17", "C03", "C01"],
+    types={"keywords": "list[bytes]"},
+    returns="list[Node]",
+    fresh_nodes=True,
+    ensures_each={
+        **EACH,
+        "type-is-the-list-name": "node.type == label",
+        "value-is-a-listed-keyword": "exists(range(len(keywords)), lambda i: node.value == keywords[i])",
+        "span-is-an-occurrence": "node.end == node.start + len(node.value) and data.lower()[node.start : node.end] == node.value.lower()",
+        "delimited": "(node.start == 0 or not data.lower()[node.start - 1 : node.start].isalnum()) and (node.end == len(data) or not data.lower()[node.end : node.end + 1].isalnum())",
+        "label-is-MixedCase-or-empty": "node.obfuscation == 'MixedCase' or node.obfuscation == ''",
+    },
+    ensures={"fresh": FRESH},
 )
